@@ -16,7 +16,9 @@ def run_chunks(fn, chunks, nproc=None):
         return [fn(*c) for c in chunks]
     _FN = fn
     ctx = mp.get_context("fork")
-    with ctx.Pool(min(nproc, len(chunks))) as pool:
+    # one fresh forked process per chunk: no library state (caches, hoisted buffers) leaks from one chunk into the next,
+    # so what a case sees depends only on the cases before it in its own chunk (re-executable)
+    with ctx.Pool(min(nproc, len(chunks)), maxtasksperchild=1) as pool:
         return pool.map(_call, chunks, chunksize=1)
 
 def stripes(n, parts=None, rot=0):
@@ -24,3 +26,8 @@ def stripes(n, parts=None, rot=0):
     parts = parts or NPROC * 4
     parts = max(1, min(parts, n)) if n else 1
     return [((k + rot) % parts, n, parts) for k in range(parts)]
+
+
+def in_child(fn):
+    """run fn() in a fresh forked child and return its (picklable) result - keeps the parent free of any library state"""
+    return run_chunks(lambda _i: fn(), [(0,), (1,)], 2)[0]
